@@ -32,7 +32,7 @@ def ob_from_hash():
                 r = argv[0]
                 off = r.rng[0] if r.rng else 0
                 if off % 8 or off // 8 > 4 or (r.rng and r.rng[1] < 8):
-                    raise Violation("mod_n_from_hash reads 8 bytes at offset %d of the 40-byte input" % off)
+                    raise Inconclusive("structure not recognised (no verdict): " + "mod_n_from_hash reads 8 bytes at offset %d of the 40-byte input" % off)
                 return holder["Z"][off // 8]
             return {"getu64": getu64}
         def mk(dom, ctx):
@@ -97,7 +97,7 @@ def ob_hash_framing(which, dlen, wlen=0):
             raise Inconclusive("expected one path through the hash function, found %d" % len(live))
         for ctx, (dom, h, fh, data, tail, prefix, r) in live:
             if len(h.calls) != 2 or len(fh) != 1:
-                raise Violation("%s makes %d SM3 calls and %d mod_n_from_hash calls (2 and 1 expected)" % (which, len(h.calls), len(fh)))
+                raise Inconclusive("structure not recognised (no verdict): " + "%s makes %d SM3 calls and %d mod_n_from_hash calls (2 and 1 expected)" % (which, len(h.calls), len(fh)))
             hy = ctx.facts + ctx.pc
             base = [z3.BitVecVal(prefix, 8)] + [dom.term(b) for b in data] + tail
             for ct, (ts, out) in zip((1, 2), h.calls):
